@@ -298,6 +298,12 @@ def main(argv):
         coverage["distinct_nontrivial"] = bounded.get("distinct_nontrivial", 0)
         coverage["rule"] = bounded.get("rule", "")
         coverage["samples"] = samples + bounded.get("samples", [])[:6]
+    if level == "proof" and n_dis != n_ob:
+        # an obligation of a proof-level claim was not discharged in this run (solver budget, out-of-reach after a change):
+        # this run is not reported at proof level
+        level = "other"
+        coverage["explanation"] = ("NOT AT PROOF LEVEL IN THIS RUN: %d of %d obligations were not discharged (see not_discharged; each is covered only by the "
+                                   "BOUNDED fallback named there). " % (n_ob - n_dis, n_ob)) + coverage.get("explanation", "")
     ev = dict(property_id=pid, tier=tier, seed=seed, level=level, coverage=coverage,
               assumptions=P.ASSUMPTIONS + cfg.get("assumptions", []), wall_s=round(time.time() - t_start, 2),
               violations=len(violations))
